@@ -18,7 +18,15 @@ META = {
                   "edit exists exactly for each key removed/changed/added with the right kind and values and none for an "
                   "unchanged key; the rebuild reason names a functionEnvKeys entry iff the environments differ at it (all 2^9 "
                   "subsets swept in Coq and lifted). seq_replacements_carry_sides_refuted: a replace entry can be None (known "
-                  "finding). TOTALITY (no longer conditional on Ok): search_total (the O(NP) search returns a state or the "
+                  "finding, after route-table exhaustion only). REPLACE ENTRIES CARRY THEIR SIDES (Diff/Proofs_Sides.v; table not "
+                  "exhausted): replace_entries_pair_unequal_elements (for every element type: no replace edit pairs two elements "
+                  "that the search's comparison reports equal, and the two are elements of the old and of the new sequence; else "
+                  "the script would not be shortest: proof through a position-aware invariant of recordSeq/extend and of the merge "
+                  "that turns the script into a path of the edit graph, plus script_is_shortest), seq_replacements_carry_sides (no "
+                  "entry of a replace payload is None, provided DiffDepth's comparison never says equal where the search's does "
+                  "not -- the statement of what breaks when one stage uses its own notion of equality), "
+                  "seq_of_scalars_replacements_carry_sides (the proviso holds outright for sequences of None/bool/int/float/string/"
+                  "bytes: EqualDepth is depth-independent and symmetric there, across types too: 1 == 1.0). TOTALITY (no longer conditional on Ok): search_total (the O(NP) search returns a state or the "
                   "EqualDepth depth error for every route-table size; S(length a) iterations of the p loop suffice), "
                   "diff_slice_total (for every pair of sequences and every route-table size >= 1 diffSlice returns a script or "
                   "the depth error, never Panic/OutOfFuel; the model's own fuel suffices: S(length routes) chain links, "
@@ -63,8 +71,9 @@ META = {
                   "run returns a script or the EqualDepth depth error (route size >= 1). Minimality is proved for the non-exhausted table only (after exhaustion the script is "
                   "not minimal: known finding); a common suffix is not always a trailing Common "
                   "edit (ex_suffix_not_trailing). Absence of None entries in "
-                  "replace payloads holds only for minimal scripts (not proved; swept) and fails after route-table exhaustion "
-                  "(known finding, shown on the real code by a crafted 1500x1700 pair). Pickle stamps in diffEnv are an input "
+                  "replace payloads is proved for the non-exhausted table (for container elements under the stated agreement of "
+                  "the two comparisons, i.e. depth-stability and symmetry of EqualDepth on them, which is swept, not proved) and "
+                  "fails after route-table exhaustion (known finding, shown on the real code by a crafted 1500x1700 pair). Pickle stamps in diffEnv are an input "
                   "(stamp_state). The multi-round part of the model was additionally validated once by a what-if run with "
                   "defaultRouteSize=6 (0 mismatches on 40 845 cases).",
     "design_ref": "DESIGN.md §6 C16",
